@@ -33,22 +33,79 @@ def guardE (v : Name) (c : Expr) : Expr := .and (.not (.var v)) c
 /-! ### fragment predicates (decidable) -/
 
 mutual
-/-- no `raise`/`break`/`continue`/`return` anywhere inside -/
-def quietS : Stmt → Bool
-  | .brk | .cont | .ret _ | .raise _ => false
-  | .assign _ _ | .expr _ | .pass => true
-  | .ifS _ t e => quietB t && quietB e
-  | .whileS _ b => quietB b
-  | .forS _ _ _ b => quietB b
-  | .tryS b hs f => quietB b && quietH hs && quietB f
-  | .withS _ b => quietB b
-def quietB : List Stmt → Bool
-  | [] => true
-  | s :: rest => quietS s && quietB rest
-def quietH : List (Nat × List Stmt) → Bool
-  | [] => true
-  | (_, b) :: hs => quietB b && quietH hs
+/-- a `break` that is not inside a loop of the statement itself (it would leave the statement) -/
+def mayBrkS : Stmt → Bool
+  | .brk => true
+  | .ifS _ t e => mayBrkB t || mayBrkB e
+  | .tryS b hs f => mayBrkB b || mayBrkH hs || mayBrkB f
+  | .withS _ b => mayBrkB b
+  | _ => false
+def mayBrkB : List Stmt → Bool
+  | [] => false
+  | s :: rest => mayBrkS s || mayBrkB rest
+def mayBrkH : List (Nat × List Stmt) → Bool
+  | [] => false
+  | (_, b) :: hs => mayBrkB b || mayBrkH hs
 end
+
+mutual
+/-- a `continue` that is not inside a loop of the statement itself -/
+def topContS : Stmt → Bool
+  | .cont => true
+  | .ifS _ t e => topContB t || topContB e
+  | .tryS b hs f => topContB b || topContH hs || topContB f
+  | .withS _ b => topContB b
+  | _ => false
+def topContB : List Stmt → Bool
+  | [] => false
+  | s :: rest => topContS s || topContB rest
+def topContH : List (Nat × List Stmt) → Bool
+  | [] => false
+  | (_, b) :: hs => topContB b || topContH hs
+end
+
+mutual
+/-- a `return` anywhere inside -/
+def hasRetS : Stmt → Bool
+  | .ret _ => true
+  | .ifS _ t e => hasRetB t || hasRetB e
+  | .whileS _ b => hasRetB b
+  | .forS _ _ _ b => hasRetB b
+  | .tryS b hs f => hasRetB b || hasRetH hs || hasRetB f
+  | .withS _ b => hasRetB b
+  | _ => false
+def hasRetB : List Stmt → Bool
+  | [] => false
+  | s :: rest => hasRetS s || hasRetB rest
+def hasRetH : List (Nat × List Stmt) → Bool
+  | [] => false
+  | (_, b) :: hs => hasRetB b || hasRetH hs
+end
+
+mutual
+/-- a `raise` anywhere inside -/
+def hasRaiseS : Stmt → Bool
+  | .raise _ => true
+  | .ifS _ t e => hasRaiseB t || hasRaiseB e
+  | .whileS _ b => hasRaiseB b
+  | .forS _ _ _ b => hasRaiseB b
+  | .tryS b hs f => hasRaiseB b || hasRaiseH hs || hasRaiseB f
+  | .withS _ b => hasRaiseB b
+  | _ => false
+def hasRaiseB : List Stmt → Bool
+  | [] => false
+  | s :: rest => hasRaiseS s || hasRaiseB rest
+def hasRaiseH : List (Nat × List Stmt) → Bool
+  | [] => false
+  | (_, b) :: hs => hasRaiseB b || hasRaiseH hs
+end
+
+/-- No jump leaves the block: no `return` anywhere inside, `break`/`continue` only inside loops of the block
+itself (the condition of PEP 765 for `finally` blocks). -/
+def escFreeB (b : List Stmt) : Bool := !mayBrkB b && !topContB b && !hasRetB b
+
+/-- The block can only end normally or with a fatal (NameError/TypeError) exception. -/
+def quietB (b : List Stmt) : Bool := escFreeB b && !hasRaiseB b
 
 mutual
 /-- no `break`/`continue`/`return` anywhere inside (`raise` allowed) -/
@@ -70,7 +127,7 @@ end
 
 mutual
 /-- The fragment S1 of the jump-lowering theorems.  For every `try … finally F`:
-* `F` contains no break/continue/return (documented exemption of C01: PEP 765), and
+* no break/continue/return leaves `F` (`escFreeB F`; documented exemption of C01: PEP 765), and
 * if `F` contains a `raise`, then the body and the handlers of that `try` contain no break/continue/return
   (otherwise a raise in `finally` can replace a pending jump whose flag was already set; see the finding
   `C01J-raise-in-finally-over-jump`). -/
@@ -79,7 +136,7 @@ def finOKS : Stmt → Bool
   | .whileS _ b => finOKB b
   | .forS _ _ _ b => finOKB b
   | .tryS b hs f =>
-      finOKB b && finOKH hs && finOKB f && jumpFreeB f && (quietB f || (jumpFreeB b && jumpFreeH hs))
+      finOKB b && finOKH hs && finOKB f && escFreeB f && (quietB f || (jumpFreeB b && jumpFreeH hs))
   | .withS _ b => finOKB b
   | _ => true
 def finOKB : List Stmt → Bool
@@ -299,22 +356,6 @@ def hasContH : List (Nat × List Stmt) → Bool
   | (_, b) :: hs => hasContB b || hasContH hs
 end
 
-mutual
-def hasRetS : Stmt → Bool
-  | .ret _ => true
-  | .ifS _ t e => hasRetB t || hasRetB e
-  | .whileS _ b => hasRetB b
-  | .forS _ _ _ b => hasRetB b
-  | .tryS b hs f => hasRetB b || hasRetH hs || hasRetB f
-  | .withS _ b => hasRetB b
-  | _ => false
-def hasRetB : List Stmt → Bool
-  | [] => false
-  | s :: rest => hasRetS s || hasRetB rest
-def hasRetH : List (Nat × List Stmt) → Bool
-  | [] => false
-  | (_, b) :: hs => hasRetB b || hasRetH hs
-end
 
 /-! ### a concrete name generator and the decidable freshness check
 
@@ -374,20 +415,44 @@ def userNamesH : List (Nat × List Stmt) → Bool
   | (_, b) :: hs => userNamesB b && userNamesH hs
 end
 
+
+/-! ### the conditional-return rewriting (`ConditionalReturnRewriter`)
+
+`if c: A else: B` followed by `R`, where `A` definitely returns, becomes `if c: A else: B; R` (and symmetrically
+when `B` definitely returns).  The Boolean is `definitely_returns` of the block / the statement's contribution. -/
+
 mutual
-/-- A `continue` that is not inside a loop (ill-formed at function level: SyntaxError in Python). -/
-def topContS : Stmt → Bool
-  | .cont => true
-  | .ifS _ t e => topContB t || topContB e
-  | .tryS b hs f => topContB b || topContH hs || topContB f
-  | .withS _ b => topContB b
-  | _ => false
-def topContB : List Stmt → Bool
-  | [] => false
-  | s :: rest => topContS s || topContB rest
-def topContH : List (Nat × List Stmt) → Bool
-  | [] => false
-  | (_, b) :: hs => topContB b || topContH hs
+def rwS : Stmt → Stmt × Bool
+  | .ret e => (.ret e, true)
+  | .ifS c t e =>
+      let rt := rwB t
+      let re := rwB e
+      (.ifS c rt.1 re.1, rt.2 && re.2)
+  | .whileS c b => (.whileS c (rwB b).1, false)
+  | .forS x it ex b => (.forS x it ex (rwB b).1, false)
+  | .tryS b hs f => (.tryS (rwB b).1 (rwH hs) (rwB f).1, false)
+  | .withS t b =>
+      let rb := rwB b
+      (.withS t rb.1, rb.2)
+  | s => (s, false)
+def rwB : List Stmt → List Stmt × Bool
+  | [] => ([], false)
+  | .ifS c t e :: rest =>
+      let rt := rwB t
+      let re := rwB e
+      let rr := rwB rest
+      if rt.2 then ([.ifS c rt.1 (re.1 ++ rr.1)], (rt.2 && re.2) || rr.2)
+      else if re.2 then ([.ifS c (rt.1 ++ rr.1) re.1], (rt.2 && re.2) || rr.2)
+      else (.ifS c rt.1 re.1 :: rr.1, (rt.2 && re.2) || rr.2)
+  | s :: rest =>
+      let rs := rwS s
+      let rr := rwB rest
+      (rs.1 :: rr.1, rs.2 || rr.2)
+def rwH : List (Nat × List Stmt) → List (Nat × List Stmt)
+  | [] => []
+  | (t, b) :: hs => (t, (rwB b).1) :: rwH hs
 end
+
+def rewriteReturns (body : Block) : Block := (rwB body).1
 
 end Malt.Sem.Jumps
